@@ -4,6 +4,7 @@ import (
 	"fmt"
 
 	"github.com/kardiachain/go-kardia/blockchain"
+	"github.com/kardiachain/go-kardia/consensus"
 	"github.com/kardiachain/go-kardia/lib/common"
 	"github.com/kardiachain/go-kardia/lib/p2p"
 	"github.com/kardiachain/go-kardia/trie"
@@ -28,6 +29,30 @@ type bsctx struct {
 	adv *netsim.Adversary
 	src *netsim.Node
 	b   int
+	nil map[uint64]map[uint32]map[common.Address]*types.Vote // genuine NIL precommits of correct validators: height -> round -> validator
+}
+
+// nilCollector records the nil precommits correct validators really signed in failed rounds of the canonical run.
+type nilCollector struct{ x *bsctx }
+
+func (nc nilCollector) Observe(net *netsim.Net, n *netsim.Node, evs []netsim.Ev) {
+	for _, e := range evs {
+		vm, ok := e.Msg.(*consensus.VoteMessage)
+		if e.Kind != netsim.EvRecv || !ok || vm.Vote == nil {
+			continue
+		}
+		v := vm.Vote
+		if v.Type != 2 || !v.BlockID.IsZero() || v.ValidatorAddress == net.Addrs[nc.x.b] {
+			continue
+		}
+		if nc.x.nil[v.Height] == nil {
+			nc.x.nil[v.Height] = map[uint32]map[common.Address]*types.Vote{}
+		}
+		if nc.x.nil[v.Height][v.Round] == nil {
+			nc.x.nil[v.Height][v.Round] = map[common.Address]*types.Vote{}
+		}
+		nc.x.nil[v.Height][v.Round][v.ValidatorAddress] = v
+	}
 }
 
 func rebuild(b *types.Block, hdMod func(*types.Header), lc *types.Commit, txs []*types.Transaction) *types.Block {
@@ -75,6 +100,34 @@ func (x *bsctx) forgedCommit(first *types.Block, genuine *types.Commit, kind str
 				sigs[i] = types.NewCommitSigForBlock(v.Signature, x.net.Addrs[x.b], v.Timestamp)
 			}
 		}
+	case "padded-with-genuine-nil-precommits":
+		// one precommit of the adversary for the forged block plus the NIL precommits the correct validators really
+		// signed in a failed round of that height (re-flagged as what they are: nil votes)
+		vs, err := x.src.Store.LoadValidators(h)
+		if err != nil {
+			return nil
+		}
+		for r, byVal := range x.nil[h] {
+			if len(byVal) < 2 {
+				continue
+			}
+			c.Round = r
+			for i := range sigs {
+				sigs[i] = types.NewCommitSigAbsent()
+			}
+			for a, v := range byVal {
+				if i, _ := vs.GetByAddress(a); i >= 0 && i < len(sigs) {
+					sigs[i] = types.CommitSig{BlockIDFlag: types.BlockIDFlagNil, ValidatorAddress: a, Timestamp: v.Timestamp, Signature: v.Signature}
+				}
+			}
+			if i, _ := vs.GetByAddress(x.net.Addrs[x.b]); i >= 0 && i < len(sigs) {
+				v := x.adv.SignVote(x.src, x.b, 2, h, r, id, genuine.Signatures[0].Timestamp)
+				sigs[i] = types.NewCommitSigForBlock(v.Signature, x.net.Addrs[x.b], v.Timestamp)
+			}
+			c.Signatures = sigs
+			return c
+		}
+		return nil
 	case "other-round":
 		c.Round += 2
 	case "parts-total":
@@ -104,6 +157,14 @@ var forgeries = []forgery{
 		ff := rebuild(f, func(hd *types.Header) { hd.GasLimit++ }, nil, nil)
 		return ff, rebuild(s, func(hd *types.Header) { hd.LastBlockID = blockID(ff) }, x.forgedCommit(ff, s.LastCommit(), "adversary-plus-stale-signatures"), nil)
 	}},
+	{"other-block+adversary-precommit-padded-with-genuine-nil-precommits", func(x *bsctx, h uint64, f, s *types.Block) (*types.Block, *types.Block) {
+		ff := rebuild(f, func(hd *types.Header) { hd.ProposerAddress = x.net.Addrs[x.b] }, nil, nil)
+		fc := x.forgedCommit(ff, s.LastCommit(), "padded-with-genuine-nil-precommits")
+		if fc == nil {
+			return nil, nil
+		}
+		return ff, rebuild(s, func(hd *types.Header) { hd.LastBlockID = blockID(ff) }, fc, nil)
+	}},
 	{"genuine-block+commit-of-another-round", func(x *bsctx, h uint64, f, s *types.Block) (*types.Block, *types.Block) {
 		return f, rebuild(s, nil, x.forgedCommit(f, s.LastCommit(), "other-round"), nil)
 	}},
@@ -131,17 +192,26 @@ func blocksync(c *core.Case) {
 		return
 	}
 	defer net.Close()
+	x := &bsctx{net: net, adv: netsim.NewAdversary(net), b: b, nil: map[uint64]map[uint32]map[common.Address]*types.Vote{}}
+	net.Mons = []netsim.Monitor{nilCollector{x}}
 	if err := net.StartAll(); err != nil {
 		run.Inconclusive("network start failed: " + err.Error())
 		return
 	}
-	H := uint64(5 + r.Intn(3))
+	H := uint64(6 + r.Intn(3))
 	if res := net.RunSync(H, 200, nil); !res.Reached {
 		run.Inconclusive("canonical chain did not reach its height")
 		return
 	}
 	src := net.Alive()[0]
-	x := &bsctx{net: net, adv: netsim.NewAdversary(net), src: src, b: b}
+	x.src = src
+	for _, byRound := range x.nil {
+		for _, byVal := range byRound {
+			if len(byVal) >= 2 {
+				run.Count("failed_rounds_with_nil_precommits_collected", 1)
+			}
+		}
+	}
 	// the syncing node: same genesis, no key, consensus not started
 	sn, err := netsim.BuildNode(9, net.Gen, nil, nil, nil, nil, netsim.NodeOpts{NoKey: true})
 	if err != nil {
